@@ -219,6 +219,7 @@ def cmdReg : P String := do
   let gv ← bytes; let gp ← bytes; let gver ← bytes; let gu ← bytes
   let gi ← listOf bytes
   let asked ← listOf (do let n ← bytes; let k ← tok; let t ← bytes; pure (n, k, t))
+  let probes ← listOf (do let n ← bytes; let k ← tok; let t ← bytes; pure (n, k, t))
   let hasResolver ← bool
   let (sf, expRes) := (sfW, expResW)
   let refused := expRes.any (· != "ok")
@@ -241,6 +242,17 @@ def cmdReg : P String := do
       | .invalidParameter p => !(k == "invalid" && t == p)
     if !bad.isEmpty then
       return s!"DIFF C13 description-differs count={bad.length} first={(bad.head?.map (fun x => encB x.1)).getD "-"} {feats}"
+    -- routing of a call `<name>.Zz` for every asked name, against `route` over the accepted registrations
+    let regNames := sf.reg.ifaces.map (·.1)
+    let badProbe := probes.filter fun (n, k, t) =>
+      match route regNames (n ++ dot :: str "Zz") with
+      | .invalidMethod => !(k == "invalid" && t == str "method")
+      | .builtin m => !(k == "methodnotfound" && t == m)
+      | .notFound i => !(k == "notfound" && t == i)
+      | .user _ m => !(k == "notimpl" && t == m)
+    if !badProbe.isEmpty then
+      let first := badProbe.head?.map (fun x => s!"{encB x.1}:{x.2.1}")
+      return s!"DIFF C04 call-routed-differently-from-registrations count={badProbe.length} first={first.getD "-"} {feats}"
     if hasResolver then
       let js ← bytes
       let rok ← bool
@@ -612,6 +624,24 @@ def cmdUpgrade : P String := do
     return s!"DIFF C18 client-did-not-receive-the-upgraded-payload expected={toCli.length} got={gotCli.length} {feats}"
   return s!"OK {feats}"
 
+/-! ## C18 long upgraded streams: `upgradebig <dir> <n> <k> {buf} | <lenSvc> <dSent> <dGot> <lenCli> <dSent> <dGot> <wantSvc> <wantCli>` -/
+
+def cmdUpgradeBig : P String := do
+  let dir ← tok
+  let n ← nat
+  let bufs ← listOf nat
+  expect "|"
+  let lenSvc ← nat; let dSentSvc ← bytes; let dGotSvc ← bytes
+  let lenCli ← nat; let dSentCli ← bytes; let dGotCli ← bytes
+  let wantSvc ← nat; let wantCli ← nat
+  let feats := s!"nt=1 dir={dir} mib={n / 1048576} bufs={bufs.length}"
+  -- stream_exactly_once has no length bound: the stream after the frame is delivered completely and unchanged
+  if lenSvc != wantSvc || dSentSvc != dGotSvc then
+    return s!"DIFF C18 handler-did-not-receive-the-upgraded-payload expected={wantSvc} got={lenSvc} {feats}"
+  if lenCli != wantCli || dSentCli != dGotCli then
+    return s!"DIFF C18 client-did-not-receive-the-upgraded-payload expected={wantCli} got={lenCli} {feats}"
+  return s!"OK {feats}"
+
 /-! ## C02 send side under concurrency: `bigframes <conns> <calls> <procs> | <bad> <first>` (oracle evaluated in the harness) -/
 
 def cmdBigFrames : P String := do
@@ -679,6 +709,6 @@ def cmdJsonStruct : P String := do
         return s!"DIFF JSON struct-reply-fields-differ {feats}"
       return s!"OK {feats}"
 
-def table : List (String × P String) := [("act", cmdAct), ("atoi", cmdAtoi), ("addr", cmdAddr), ("reg", cmdReg), ("client", cmdClient), ("e2e", cmdE2e), ("abort", cmdAbort), ("connr", cmdConnR), ("jsonself", cmdJsonSelf), ("upgrade", cmdUpgrade), ("bigframes", cmdBigFrames), ("ctxsplit", cmdCtxSplit), ("jsonstruct", cmdJsonStruct)]
+def table : List (String × P String) := [("act", cmdAct), ("atoi", cmdAtoi), ("addr", cmdAddr), ("reg", cmdReg), ("client", cmdClient), ("e2e", cmdE2e), ("abort", cmdAbort), ("connr", cmdConnR), ("jsonself", cmdJsonSelf), ("upgrade", cmdUpgrade), ("upgradebig", cmdUpgradeBig), ("bigframes", cmdBigFrames), ("ctxsplit", cmdCtxSplit), ("jsonstruct", cmdJsonStruct)]
 
 end Driver.Misc
